@@ -7,6 +7,10 @@ random generator reaches only rarely:
  spawn_into_cancelled
                     a task is spawned into an already cancelled group while the host sits in
                     a shielded scope (delivery loop wound down, F10)                 -> C03
+ start_into_cancelled
+                    start() called by a shielded (un-cancelled) host or by a foreign task on a
+                    group that was cancelled some cycles earlier (delivery wound down): the
+                    child must be cancelled at its first checkpoint like any member  -> C07, C03
  failure_then_shield
                     a member fails while the group is only effectively cancelled through an
                     enclosing scope, then a shield cuts that off (F12)               -> C02
@@ -130,6 +134,41 @@ def spawn_into_cancelled():  # noqa: ANN201
                                 ["cancel", "s1"], ["group", 1, [], [shielded]]]]]  # fmt: skip
 
                         yield _p(cfg, root, [], "fam:spawn_into_cancelled")
+
+
+def start_into_cancelled():  # noqa: ANN201
+    for cfg in CFGS:
+        for wind in range(1, 4):  # cycles spent shielded before start() is called
+            for via in ("group", "outer"):
+                for k in (0, 1, 2):  # child's checkpoints before started()
+                    for after in (["cp", 3], ["forever"], ["sleep", 2]):
+                        for caller in ("shielded-host", "foreign"):
+                            for rh in (False, True):
+                                body = ([["cp", k]] if k else []) + [["started", 5], after]
+                                child = {"tid": 1, "how": "start", "body": body}
+                                if rh:
+                                    child["return_handle"] = True
+
+                                call = ["scope", "s2", True, None,
+                                        [["cp", wind], ["startcall", 1, child], ["cp", 6]]]  # fmt: skip
+                                if caller == "shielded-host":
+                                    inner = [call]
+                                    outer_members: list = []
+                                else:
+                                    # the host stays shielded; a task outside the group calls
+                                    inner = [["scope", "s3", True, None, [["cp", wind + 8]]]]
+                                    outer_members = [{"tid": 7, "how": "start_soon", "body": [call]}]
+
+                                if via == "group":
+                                    g = ["group", 1, [], [["cancel", "g1"]] + inner]
+                                    root = [["group", 9, outer_members, [g, ["cp", 1]]]]
+                                else:
+                                    g = ["group", 1, [], inner]
+                                    root = [["group", 9, outer_members, [
+                                        ["scope", "s1", False, None, [["cancel", "s1"], g]],
+                                        ["cp", 1]]]]  # fmt: skip
+
+                                yield _p(cfg, root, [], "fam:start_into_cancelled")
 
 
 def failure_then_shield():  # noqa: ANN201
